@@ -241,6 +241,10 @@ def fam_rebase(g, kind="plain"):
     base_branch = g.branch()
     n = rng.randint(1, 3)
     pos = rng.choice(["above", "below", "interleaved", "other_file", "other_file", "conflict"])
+    after_abort = kind != "interactive" and rng.random() < 0.2
+    if after_abort:
+        # variant: the first attempt stops on a conflict and is aborted, the second one is seen through
+        pos, n = "conflict", 1
     yield from fam_feature_branch(g, n, path, rewritten=True)
     yield g.git("checkout", "-q", base_branch)
     for _ in range(rng.randint(1, 2)):
@@ -274,9 +278,9 @@ def fam_rebase(g, kind="plain"):
             yield g.git("rebase", "--continue", env={"GIT_EDITOR": "true"}, check=True)
     g.ex.gen_state["aborted"] = False
     multi_gate = n > 1 and g.gated("rebase_conflict_multi_commit")
-    yield from resolve_loop(g, ["rebase", "--continue"], ["rebase", "--abort"], must_abort=multi_gate)
+    yield from resolve_loop(g, ["rebase", "--continue"], ["rebase", "--abort"], must_abort=multi_gate or after_abort)
     if g.ex.gen_state.get("aborted") and not g.in_progress() and not multi_gate and kind != "interactive" \
-            and rng.random() < 0.6:
+            and (after_abort or rng.random() < 0.6):
         # after giving up, the person starts the same rebase again and this time resolves the conflict
         g.ex.probe("rebase.again_after_abort")
         yield g.git("rebase", base_branch, rewrite=True)
@@ -321,9 +325,13 @@ def fam_cherry_pick(g):
     base_branch = g.branch()
     n = rng.randint(1, 3)
     pos = rng.choice(["above", "below", "interleaved", "other_file", "other_file", "conflict"])
+    # variant: the first attempt stops on a conflict and is given up, then something is picked and seen through
+    after_abort = rng.random() < 0.25
+    if after_abort:
+        pos = "conflict"
     yield from fam_feature_branch(g, n, path, name="src")
     yield g.git("checkout", "-q", base_branch)
-    if rng.random() < 0.8:
+    if after_abort or rng.random() < 0.8:
         yield upstream_change(g, pos, path)
         yield from g.commit_all()
     ranged = n > 1 and rng.random() < 0.5
@@ -333,8 +341,8 @@ def fam_cherry_pick(g):
         yield g.git("cherry-pick", "src~%d" % rng.randint(0, n - 1), rewrite=True)
     g.ex.gen_state["aborted"] = False
     yield from resolve_loop(g, ["cherry-pick", "--continue"], ["cherry-pick", "--abort"],
-                            must_abort=(ranged and g.gated("pick_conflict_multi_commit_notes")))
-    if g.ex.gen_state.get("aborted") and not g.in_progress() and rng.random() < 0.8:
+                            must_abort=(after_abort or (ranged and g.gated("pick_conflict_multi_commit_notes"))))
+    if g.ex.gen_state.get("aborted") and not g.in_progress() and (after_abort or rng.random() < 0.8):
         # after giving up, the person picks something else (or the same commit again) and sees it through
         g.ex.probe("cherry_pick.again_after_abort")
         yield g.git("cherry-pick", "src~%d" % rng.randint(0, n - 1), rewrite=True)
@@ -955,6 +963,28 @@ def fam_ci_rewrite(g):
     yield {"op": "ci_run", "tool": tool, "head_ref": "feat", "base_ref": "main", "dt": g.dt(), "check_ci": True}
 
 
+def fam_partial_amend(g):
+    """one session edits two files; only one is committed (the other stays pending in INITIAL together
+    with the session's prompt record); the second file is then added to the SAME commit with --amend,
+    without any new checkpoint in between"""
+    rng = g.rng
+    files = g.worktree_files()
+    while len(files) < 2:
+        yield g.ai_edit(new_file=True)
+        files = g.worktree_files()
+    f1, f2 = rng.sample(files, 2)
+    s = g.pick_session()
+    kinds = ["insert", "append"] if g.gated("partial_unstaged_nonpure_hunk") else ["insert", "append", "replace"]
+    yield g.edit(s, path=f1, kinds=kinds)
+    yield g.edit(s, path=f2, kinds=kinds)
+    yield g.git("add", "--", f1)
+    yield g.git("commit", "-q", "-m", g.msg(), check=True)
+    if rng.random() < 0.3:
+        yield g.human_edit(new_file=True)
+    yield g.git("add", "-A")
+    yield g.git("commit", "-q", "--amend", "--no-edit", check=True, rewrite=True)
+
+
 FAMILIES = {
     "human_overwrites_ai": fam_human_overwrites_ai,
     "destructive": fam_destructive,
@@ -979,6 +1009,7 @@ FAMILIES = {
     "revert": fam_revert,
     "mv_rm": fam_mv_rm,
     "ci_rewrite": fam_ci_rewrite,
+    "partial_amend": fam_partial_amend,
 }
 
 # families whose outcome no property promises two-sidedly (a reverted-and-restored or renamed line)
